@@ -110,6 +110,59 @@ func allTrees(maxN int) []Tree {
 
 var ops = []string{"String", "IsDeepEqual", "Sort", "Tag"}
 
+// judgeAliased: NewNode(..., shared[:k]...) and NewNode(..., shared[:m]...) hand the library two views of
+// one array (Go passes the slice itself for a spread argument); a diff and every operation on it must
+// leave both trees and the caller's array as they were.
+func judgeAliased(k, m int) (sig, what string) {
+	mk := func() (gedcom.Node, gedcom.Node, gedcom.Nodes) {
+		shared := make(gedcom.Nodes, 3, 8)
+		for i := range shared {
+			shared[i] = gedcom.NewNode(gedcom.TagNote, fmt.Sprintf("n%d", i), "")
+		}
+		sub := func(n int) gedcom.Node {
+			// an entry below the root that has child entries of its own and a sibling
+			return gedcom.NewNode(gedcom.TagFromString("_ROOT"), "", "", gedcom.NewNode(gedcom.TagFromString("EVEN"), "x", "", shared[:n]...), gedcom.NewNode(gedcom.TagNote, "sibling", ""))
+		}
+		return sub(k), sub(m), shared
+	}
+	snap := func(l, r gedcom.Node, sh gedcom.Nodes) string {
+		s := gedcom.GEDCOMString(l, 0) + "|" + gedcom.GEDCOMString(r, 0) + "|"
+		for _, n := range sh[:cap(sh)] {
+			s += gedcom.GEDCOMString(n, 0) + ","
+		}
+		return s
+	}
+	for _, seq := range [][]int{{}, {2}, {2, 2}, {0, 2, 1, 3}, {1, 2, 0}} {
+		L, R, sh := mk()
+		before := snap(L, R, sh)
+		var d *gedcom.NodeDiff
+		if p, msg, frame := vlib.Try(func() { d = gedcom.CompareNodes(L, R) }); p {
+			return "panic:CompareNodes:" + frame + ":" + vlib.MsgClass(msg), msg
+		}
+		for _, o := range seq {
+			var p bool
+			var msg, frame string
+			switch ops[o] {
+			case "String":
+				p, msg, frame = vlib.Try(func() { _ = d.String() })
+			case "IsDeepEqual":
+				p, msg, frame = vlib.Try(func() { _ = d.IsDeepEqual() })
+			case "Sort":
+				p, msg, frame = vlib.Try(func() { d.Sort() })
+			case "Tag":
+				p, msg, frame = vlib.Try(func() { _ = d.Tag() })
+			}
+			if p {
+				return "panic:" + ops[o] + ":" + frame + ":" + vlib.MsgClass(msg), msg
+			}
+			if after := snap(L, R, sh); after != before {
+				return "inputs-modified-by:" + ops[o] + ":shared-child-array", fmt.Sprintf("children %d and %d of one array with spare capacity: after %s (sequence %v) the trees or the caller's array changed:\nbefore: %s\nafter:  %s", k, m, ops[o], seq, before, after)
+			}
+		}
+	}
+	return "", ""
+}
+
 // permutations of up to three items
 func perms3(n int) [][]int {
 	switch n {
@@ -560,6 +613,16 @@ func run(tier, unit string, r *vlib.Rec) {
 				}
 			}
 		}
+	case "aliased": // trees built through the API whose child slices share one backing array with spare capacity
+		for k := lo; k < hi; k++ {
+			for m := int64(0); m <= 3; m++ {
+				r.Eval()
+				r.Count("aliased")
+				if s, w := judgeAliased(int(k), int(m)); s != "" {
+					r.Fail(s, w, kase{Sub: "aliased", Ops: []int{int(k), int(m)}})
+				}
+			}
+		}
 	case "variants":
 		for i := lo; i < hi; i++ {
 			t := trees[i]
@@ -620,12 +683,16 @@ func plan(tier string) []string {
 	out := vlib.Chunks("pairs", n, size)
 	out = append(out, vlib.Chunks("variants", n, 200)...)
 	out = append(out, vlib.Chunks("classes", int64(len(gen.EqualityClassPool)), 2)...)
+	out = append(out, "aliased:0:4")
 	return out
 }
 
 func replay(c json.RawMessage) (string, string) {
 	var k kase
 	json.Unmarshal(c, &k)
+	if k.Sub == "aliased" && len(k.Ops) == 2 {
+		return judgeAliased(k.Ops[0], k.Ops[1])
+	}
 	s, w := judgePair(k.L, k.R, k.Ops, k.Sub)
 	d := gedcom.CompareNodes(k.L.build(), k.R.build())
 	return s, fmt.Sprintf("left:\n%sright:\n%sops=%v\ndiff:\n%s\n%s", k.L.text(), k.R.text(), k.Ops, d.String(), w)
